@@ -2,6 +2,7 @@ import Oracle.Util
 import Oracle.C01
 import Oracle.C08
 import MobiusModel.Transfers
+import MobiusModel.UploadHistory
 /-! Oracle handlers for C09 (model functions exposed on the line protocol).
 
   The state of the two names is passed as lengths (`-` = absent); contents are zero-filled on this
@@ -15,6 +16,26 @@ def stOfArgs (fin inc : String) : UpState :=
 def optLen (o : Option Bytes) : String := match o with | some b => toString b.length | none => "-"
 
 def stStr (st : UpState) : String := s!"{optLen st.final} {optLen st.inc}"
+
+def upEvOf (s : String) : Option UpEv :=
+  match s.toList with
+  | 'c' :: k => some (.attempt (num (String.ofList k)))
+  | ['a', '1'] => some (.ask true)
+  | ['a', '0'] => some (.ask false)
+  | 'i' :: k => some (.idle (num (String.ofList k)))
+  | 't' :: _ => some (.touch 1 1)
+  | _ => none
+
+def upReplyStr : UpReply → String
+  | .refused => "refused"
+  | .noReply => "noreply"
+  | .ok none => "ok"
+  | .ok (some off) => s!"ok {off}"
+
+/-- An attempt that got a reference number shows the reply and the names afterwards; a request without a
+    transfer (and an attempt that was refused) only the reply. -/
+def upObsStr (o : UpObs) : String :=
+  if o.isAttempt then s!"{upReplyStr o.reply} > {stStr o.after}" else upReplyStr o.reply
 
 def c09Own : List (String × Handler) := [
   -- uphandle <final> <inc> <resume 0|1>
@@ -53,6 +74,15 @@ def c09Own : List (String × Handler) := [
           let st := uploadAttempt (num ref) (num fc) i d r acc.1 (num c)
           (st, acc.2 ++ [stStr st])
         " ; ".intercalate (cuts.foldl step ({}, [])).2
+      | _ => "bad-op"
+    | _ => "bad-op"),
+  -- uphist <ref> <fc> <info 11 tokens> <data length> <rsrc length> <events…> → what every request showed
+  --   events: c<k> attempt cut after k bytes · a0 / a1 request without a transfer · i<secs> idle · t<anything> times moved
+  ("uphist", fun (a : List String) => match a with
+    | ref :: fc :: rest => match infoOfArgs rest with
+      | some (i, dl :: rl :: evs) =>
+        let w := upHistory (num ref) (num fc) i (List.replicate (num dl) 0) (List.replicate (num rl) 0) (evs.filterMap upEvOf)
+        " ; ".intercalate (w.trace.map upObsStr)
       | _ => "bad-op"
     | _ => "bad-op")
 ]
